@@ -202,3 +202,196 @@ class ScriptPZ:
     def fragile(self, v: int) -> None:
         self._fault("setattr")
         self._fragile = v
+
+
+# ==================================================================================================
+# ScriptVecGym: gymnasium-style vector environment for the single-agent training loops
+# ==================================================================================================
+GYM_OBS_KINDS = ["vector", "image", "dict", "tuple", "discrete"]
+
+
+def gym_obs_space(kind: str) -> spaces.Space:
+    if kind == "vector":
+        return spaces.Box(-1e6, 1e6, (3,), np.float32)
+    if kind == "image":
+        return spaces.Box(0.0, 1.0, (3, 8, 8), np.float32)
+    if kind == "dict":
+        return spaces.Dict({"v": spaces.Box(-1e6, 1e6, (2,), np.float32), "im": spaces.Box(0.0, 1.0, (3, 8, 8), np.float32)})
+    if kind == "tuple":
+        return spaces.Tuple((spaces.Box(-1e6, 1e6, (2,), np.float32), spaces.Box(-1e6, 1e6, (3,), np.float32)))
+    if kind == "dict_vec":
+        return spaces.Dict({"v": spaces.Box(-1e6, 1e6, (2,), np.float32), "w": spaces.Box(-1e6, 1e6, (3,), np.float32)})
+    if kind == "discrete":
+        return spaces.Discrete(6)
+    raise ValueError(kind)
+
+
+def _gym_obs(space: spaces.Space, gid: int):
+    """Observation whose first component of every vector leaf encodes the global transition id (images encode it mod 251 / 251)."""
+    if isinstance(space, spaces.Box):
+        if len(space.shape) == 3:
+            return np.full(space.shape, (gid % 251) / 251.0, dtype=space.dtype)
+        v = np.full(space.shape, float(gid), dtype=space.dtype)
+        return v
+    if isinstance(space, spaces.Discrete):
+        return np.int64(gid % space.n)
+    if isinstance(space, spaces.Dict):
+        return {k: _gym_obs(s, gid) for k, s in space.spaces.items()}
+    if isinstance(space, spaces.Tuple):
+        return tuple(_gym_obs(s, gid) for s in space.spaces)
+    raise ValueError(space)
+
+
+def _stack(obs_list):
+    o0 = obs_list[0]
+    if isinstance(o0, dict):
+        return {k: np.stack([o[k] for o in obs_list]) for k in o0}
+    if isinstance(o0, tuple):
+        return tuple(np.stack([o[i] for o in obs_list]) for i in range(len(o0)))
+    return np.stack(obs_list)
+
+
+class ScriptVecGym:
+    """Vector environment (same-step auto-reset) whose behaviour is a pure function of (spec, call history). Strict: raises
+    IllegalAction for actions outside the action space or masked actions. Keeps a ground-truth log of every transition
+    with the tag of whoever was acting (set by the simulator through `.owner` / `.phase`)."""
+
+    def __init__(self, spec: Dict[str, Any], num_envs: Optional[int] = 2, clock: Any = None):
+        self.spec = spec
+        self.vectorised = num_envs is not None
+        self.n = num_envs if num_envs is not None else 1
+        if self.vectorised:
+            self.num_envs = self.n
+        self.single_observation_space = gym_obs_space(spec["obs_kind"])
+        self.single_action_space = spaces.Discrete(4) if spec["act_kind"] == "discrete" else spaces.Box(-1.0, 1.0, (2,), np.float32)
+        self.observation_space = self.single_observation_space
+        self.action_space = self.single_action_space
+        self.clock = clock
+        self.owner: Any = None
+        self.phase = "train"
+        self.counter = [0] * self.n       # transitions produced per sub-env
+        self.episode = [0] * self.n
+        self.t = [0] * self.n
+        self.length = [1] * self.n
+        self.resets = 0
+        self.log: List[Dict[str, Any]] = []
+        self.mask_on = bool(spec.get("action_mask")) and spec["act_kind"] == "discrete"
+        self.last_mask: Optional[np.ndarray] = None
+
+    def _gid(self, e: int) -> int:
+        return e * 100000 + self.counter[e]
+
+    def _len(self, e: int) -> int:
+        return 1 + _mix(self.spec.get("len_seed", 0), e, self.episode[e], self.resets) % self.spec.get("max_len", 5)
+
+    def _mask(self) -> Optional[np.ndarray]:
+        if not self.mask_on:
+            return None
+        m = np.ones((self.n, 4), dtype=np.int8)
+        for e in range(self.n):
+            m[e, _mix(e, self.counter[e], 17) % 4] = 0
+        self.last_mask = m
+        return m
+
+    def _info(self) -> Dict[str, Any]:
+        m = self._mask()
+        if m is None:
+            return {}
+        return {"action_mask": m if self.vectorised else m[0]}
+
+    def _out_obs(self, obs_list):
+        return _stack(obs_list) if self.vectorised else obs_list[0]
+
+    def reset(self, seed: Optional[int] = None, options: Optional[dict] = None):
+        self.resets += 1
+        for e in range(self.n):
+            self.episode[e] += 1
+            self.t[e] = 0
+            self.length[e] = self._len(e)
+        if self.clock is not None:
+            self.clock.advance(0.01)
+        self.log.append({"kind": "reset", "owner": self.owner, "phase": self.phase})
+        return self._out_obs([_gym_obs(self.single_observation_space, self._gid(e)) for e in range(self.n)]), self._info()
+
+    def step(self, actions):
+        acts = np.asarray(actions)
+        if not self.vectorised:
+            acts = acts[None] if acts.ndim == (0 if isinstance(self.single_action_space, spaces.Discrete) else 1) else acts
+        if len(acts) != self.n:
+            raise IllegalAction(f"expected {self.n} actions, got shape {acts.shape}")
+        obs, rew, term, trunc = [], [], [], []
+        for e in range(self.n):
+            a = acts[e]
+            if isinstance(self.single_action_space, spaces.Discrete):
+                if np.asarray(a).size != 1 or not self.single_action_space.contains(int(np.asarray(a).reshape(-1)[0])):
+                    raise IllegalAction(f"action {a!r} for sub-env {e} is not in {self.single_action_space}")
+                if self.mask_on and self.last_mask is not None and self.last_mask[e, int(np.asarray(a).reshape(-1)[0])] == 0:
+                    raise IllegalAction(f"masked action {int(np.asarray(a).reshape(-1)[0])} chosen in sub-env {e} (mask {self.last_mask[e].tolist()})")
+                echo = float(np.asarray(a).reshape(-1)[0])
+            else:
+                aa = np.asarray(a, dtype=np.float32)
+                if aa.shape != (2,) or not np.all(np.isfinite(aa)) or np.any(aa < -1.0 - 1e-6) or np.any(aa > 1.0 + 1e-6):
+                    raise IllegalAction(f"action {a!r} for sub-env {e} is not in {self.single_action_space}")
+                echo = float(aa[0])
+            gid = self._gid(e)
+            self.t[e] += 1
+            self.counter[e] += 1
+            end = self.t[e] >= self.length[e]
+            kind = self.spec.get("ending", "term")
+            te = bool(end and (kind == "term" or (kind == "mixed" and self.episode[e] % 2 == 0)))
+            tr = bool(end and not te)
+            r = float(((_mix(gid, 5) % 2001) - 1000) / 500.0)
+            self.log.append({"kind": "step", "env": e, "gid": gid, "action": np.asarray(a).tolist(), "reward": r, "end": end, "owner": self.owner,
+                             "phase": self.phase, "episode": self.episode[e]})
+            if end:
+                self.episode[e] += 1
+                self.t[e] = 0
+                self.length[e] = self._len(e)
+            obs.append(_gym_obs(self.single_observation_space, self._gid(e)))
+            rew.append(r)
+            term.append(te)
+            trunc.append(tr)
+        if self.clock is not None:
+            self.clock.advance(0.01)
+        if self.vectorised:
+            return _stack(obs), np.asarray(rew, dtype=np.float64), np.asarray(term), np.asarray(trunc), self._info()
+        return obs[0], rew[0], term[0], trunc[0], self._info()
+
+    def close(self) -> None:
+        pass
+
+
+def decode_gid(obs_row, space: spaces.Space) -> Optional[int]:
+    """Global transition id encoded in one observation row (None if the space cannot carry it exactly)."""
+    if isinstance(space, spaces.Box) and len(space.shape) == 1:
+        return int(round(float(np.asarray(obs_row).reshape(-1)[0])))
+    if isinstance(space, spaces.Dict):
+        for k, s in space.spaces.items():
+            g = decode_gid(obs_row[k], s)
+            if g is not None:
+                return g
+    if isinstance(space, spaces.Tuple):
+        for i, s in enumerate(space.spaces):
+            g = decode_gid(obs_row[i], s)
+            if g is not None:
+                return g
+    return None
+
+
+class VirtualClock:
+    """Stands in for the names `time` / `datetime` inside the training modules."""
+
+    def __init__(self):
+        self.now = 1000.0
+
+    def advance(self, d: float) -> None:
+        self.now += d
+
+    def time(self) -> float:
+        return self.now
+
+    def perf_counter(self) -> float:
+        return self.now
+
+    def sleep(self, d: float) -> None:
+        self.now += d
